@@ -126,36 +126,36 @@ Print Assumptions C08_U_ilog2.
    fuel for the remaining doublings of m returns (m*(1+t), k / b^t) where t = floor(log_b k);
    it neither runs out of fuel nor panics in either build mode (the b*b it computes never
    overflows). *)
-Theorem C08_iilog : mul_spec -> div_spec -> forall dbg w n,
+Theorem C08_iilog : forall dbg w n,
   0 < w -> (0 < n)%nat -> bits w n < 2 ^ 31 ->
   forall f m b k, wf w n b -> wf w n k ->
   1 <= m -> 2 ^ m <= uval w b -> 1 <= uval w k -> uval w b * uval w k < Mod w n ->
   bits w n <= m * 2 ^ Z.of_nat f ->
   exists t q, iilog (S f) dbg w m b k = Some (Ret (m * (1 + t), q)) /\ wf w n q /\ 0 <= t /\
               uval w q = uval w k / uval w b ^ t /\ 1 <= uval w q < uval w b.
-Proof. exact iilog_ok. Qed.
+Proof. exact (iilog_ok mul_spec_holds div_spec_holds). Qed.
 Print Assumptions C08_iilog.
 
 (* total (fuel suffices: never None), panic-free in debug and release builds, and exact *)
-Theorem C08_U_checked_ilog : mul_spec -> div_spec -> forall dbg w n a base,
+Theorem C08_U_checked_ilog : forall dbg w n a base,
   0 < w -> (0 < n)%nat -> bits w n < 2 ^ 31 -> wf w n a -> wf w n base ->
   0 < uval w a -> 2 <= uval w base ->
   exists k, U_checked_ilog dbg w a base = Some (Ret (Some k)) /\ 0 <= k /\
             uval w base ^ k <= uval w a < uval w base ^ (k + 1).
-Proof. exact U_checked_ilog_ok. Qed.
+Proof. exact (U_checked_ilog_ok mul_spec_holds div_spec_holds). Qed.
 Print Assumptions C08_U_checked_ilog.
 
-Theorem C08_U_checked_ilog_none : mul_spec -> div_spec -> forall dbg w n a base,
+Theorem C08_U_checked_ilog_none : forall dbg w n a base,
   0 < w -> (0 < n)%nat -> bits w n < 2 ^ 31 -> wf w n a -> wf w n base ->
   (U_checked_ilog dbg w a base = Some (Ret None) <-> uval w a = 0 \/ uval w base < 2).
-Proof. exact U_checked_ilog_none. Qed.
+Proof. exact (U_checked_ilog_none mul_spec_holds div_spec_holds). Qed.
 Print Assumptions C08_U_checked_ilog_none.
 
-Theorem C08_U_checked_ilog10 : mul_spec -> div_spec -> div_digit_spec -> forall dbg w n a,
+Theorem C08_U_checked_ilog10 : forall dbg w n a,
   0 < w -> 10 < B w -> (0 < n)%nat -> bits w n < 2 ^ 31 -> wf w n a -> 0 < uval w a ->
   exists k, U_checked_ilog10 dbg w a = Some (Ret (Some k)) /\ 0 <= k /\
             10 ^ k <= uval w a < 10 ^ (k + 1).
-Proof. exact U_checked_ilog10_ok. Qed.
+Proof. exact (U_checked_ilog10_ok mul_spec_holds div_spec_holds div_digit_spec_holds). Qed.
 Print Assumptions C08_U_checked_ilog10.
 
 Theorem C08_U_checked_ilog10_none : forall dbg w n a, 0 < w -> wf w n a ->
@@ -164,19 +164,19 @@ Proof. exact U_checked_ilog10_none. Qed.
 Print Assumptions C08_U_checked_ilog10_none.
 
 (* ilog / ilog10 panic exactly in the None cases *)
-Theorem C08_U_ilog : mul_spec -> div_spec -> forall dbg w n a base,
+Theorem C08_U_ilog : forall dbg w n a base,
   0 < w -> (0 < n)%nat -> bits w n < 2 ^ 31 -> wf w n a -> wf w n base ->
   if (uval w a =? 0) || (uval w base <? 2) then U_ilog dbg w a base = Some Panic
   else exists k, U_ilog dbg w a base = Some (Ret k) /\ 0 <= k /\
                  uval w base ^ k <= uval w a < uval w base ^ (k + 1).
-Proof. exact U_ilog_ok. Qed.
+Proof. exact (U_ilog_ok mul_spec_holds div_spec_holds). Qed.
 Print Assumptions C08_U_ilog.
 
-Theorem C08_U_ilog10 : mul_spec -> div_spec -> div_digit_spec -> forall dbg w n a,
+Theorem C08_U_ilog10 : forall dbg w n a,
   0 < w -> 10 < B w -> (0 < n)%nat -> bits w n < 2 ^ 31 -> wf w n a ->
   if uval w a =? 0 then U_ilog10 dbg w a = Some Panic
   else exists k, U_ilog10 dbg w a = Some (Ret k) /\ 0 <= k /\ 10 ^ k <= uval w a < 10 ^ (k + 1).
-Proof. exact U_ilog10_ok. Qed.
+Proof. exact (U_ilog10_ok mul_spec_holds div_spec_holds div_digit_spec_holds). Qed.
 Print Assumptions C08_U_ilog10.
 
 (* ================= logarithms, signed ================= *)
@@ -191,41 +191,41 @@ Theorem C08_I_ilog2 : forall w n a, 0 < w -> (0 < n)%nat -> wf w n a ->
 Proof. exact I_ilog2_ok. Qed.
 Print Assumptions C08_I_ilog2.
 
-Theorem C08_I_checked_ilog : mul_spec -> div_spec -> forall dbg w n a base,
+Theorem C08_I_checked_ilog : forall dbg w n a base,
   0 < w -> (0 < n)%nat -> bits w n < 2 ^ 31 -> wf w n a -> wf w n base ->
   0 < sval w a -> 2 <= sval w base ->
   exists k, I_checked_ilog dbg w a base = Some (Ret (Some k)) /\ 0 <= k /\
             sval w base ^ k <= sval w a < sval w base ^ (k + 1).
-Proof. exact I_checked_ilog_ok. Qed.
+Proof. exact (I_checked_ilog_ok mul_spec_holds div_spec_holds). Qed.
 Print Assumptions C08_I_checked_ilog.
 
-Theorem C08_I_checked_ilog_none : mul_spec -> div_spec -> forall dbg w n a base,
+Theorem C08_I_checked_ilog_none : forall dbg w n a base,
   0 < w -> (0 < n)%nat -> bits w n < 2 ^ 31 -> wf w n a -> wf w n base ->
   (I_checked_ilog dbg w a base = Some (Ret None) <-> sval w a <= 0 \/ sval w base < 2).
-Proof. exact I_checked_ilog_none. Qed.
+Proof. exact (I_checked_ilog_none mul_spec_holds div_spec_holds). Qed.
 Print Assumptions C08_I_checked_ilog_none.
 
-Theorem C08_I_checked_ilog10 : mul_spec -> div_spec -> div_digit_spec -> forall dbg w n a,
+Theorem C08_I_checked_ilog10 : forall dbg w n a,
   0 < w -> 10 < B w -> (0 < n)%nat -> bits w n < 2 ^ 31 -> wf w n a ->
   if sval w a <=? 0 then I_checked_ilog10 dbg w a = Some (Ret None)
   else exists k, I_checked_ilog10 dbg w a = Some (Ret (Some k)) /\ 0 <= k /\
                  10 ^ k <= sval w a < 10 ^ (k + 1).
-Proof. exact I_checked_ilog10_ok. Qed.
+Proof. exact (I_checked_ilog10_ok mul_spec_holds div_spec_holds div_digit_spec_holds). Qed.
 Print Assumptions C08_I_checked_ilog10.
 
-Theorem C08_I_ilog : mul_spec -> div_spec -> forall dbg w n a base,
+Theorem C08_I_ilog : forall dbg w n a base,
   0 < w -> (0 < n)%nat -> bits w n < 2 ^ 31 -> wf w n a -> wf w n base ->
   if (sval w a <=? 0) || (sval w base <? 2) then I_ilog dbg w a base = Some Panic
   else exists k, I_ilog dbg w a base = Some (Ret k) /\ 0 <= k /\
                  sval w base ^ k <= sval w a < sval w base ^ (k + 1).
-Proof. exact I_ilog_ok. Qed.
+Proof. exact (I_ilog_ok mul_spec_holds div_spec_holds). Qed.
 Print Assumptions C08_I_ilog.
 
-Theorem C08_I_ilog10 : mul_spec -> div_spec -> div_digit_spec -> forall dbg w n a,
+Theorem C08_I_ilog10 : forall dbg w n a,
   0 < w -> 10 < B w -> (0 < n)%nat -> bits w n < 2 ^ 31 -> wf w n a ->
   if sval w a <=? 0 then I_ilog10 dbg w a = Some Panic
   else exists k, I_ilog10 dbg w a = Some (Ret k) /\ 0 <= k /\ 10 ^ k <= sval w a < 10 ^ (k + 1).
-Proof. exact I_ilog10_ok. Qed.
+Proof. exact (I_ilog10_ok mul_spec_holds div_spec_holds div_digit_spec_holds). Qed.
 Print Assumptions C08_I_ilog10.
 
 (* ================= the hypotheses are satisfiable; the model computes ================= *)
